@@ -38,6 +38,8 @@ mod verif_e2e {
     pub struct Scenario {
         pub attributed: bool, pub elevated: bool, pub dest: (std::net::Ipv4Addr, u16), pub rules: Option<(&'static str, &'static str)>, // (mode, defaultAccess) for the destination's endpoint
         pub key: bool, pub raw_request: String, pub host_response: Option<Vec<u8>>,
+        /// rules published for the endpoints that are NOT the destination (mode, default access)
+        pub other_rules: Option<(&'static str, &'static str)>,
     }
 
     const KEY_JSON: &str = r#"{"authorizationScheme":"Azure-HMAC-SHA256","guid":"9cf81e97-0316-4ad3-94a7-8ccbdee8ddbf","issued":"2021-05-05T12:00:00Z","key":"4A404E635266556A586E3272357538782F413F4428472B4B6250645367566B59"}"#;
@@ -54,6 +56,12 @@ mod verif_e2e {
             if sc.dest == ("168.63.129.16".parse().unwrap(), 80) { kk.set_wireserver_rules(Some(item)).await.unwrap(); }
             else if sc.dest == ("168.63.129.16".parse().unwrap(), 32526) { kk.set_hostga_rules(Some(item)).await.unwrap(); }
             else if sc.dest == ("169.254.169.254".parse().unwrap(), 80) { kk.set_imds_rules(Some(item)).await.unwrap(); }
+        }
+        if let Some((mode, default)) = sc.other_rules {
+            let item = || crate::key_keeper::key::AuthorizationItem { defaultAccess: default.to_string(), mode: mode.to_string(), id: "verif-other".to_string(), rules: None };
+            if sc.dest != ("168.63.129.16".parse().unwrap(), 80) { kk.set_wireserver_rules(Some(item())).await.unwrap(); }
+            if sc.dest != ("168.63.129.16".parse().unwrap(), 32526) { kk.set_hostga_rules(Some(item())).await.unwrap(); }
+            if sc.dest != ("169.254.169.254".parse().unwrap(), 80) { kk.set_imds_rules(Some(item())).await.unwrap(); }
         }
         let proxy_server = ProxyServer::new(0, &shared_state);
         // mock host: records every request head + body it receives, answers 200
@@ -154,11 +162,12 @@ mod verif_e2e {
 '''
 
 
-def scenario_rs(attributed=True, elevated=True, dest=("168.63.129.16", 80), rules=None, key=False, raw_request="GET /machine?comp=goalstate HTTP/1.1\r\nhost: 127.0.0.1\r\n\r\n", host_response=None):
-    return 'Scenario { attributed: %s, elevated: %s, dest: ("%s".parse().unwrap(), %d), rules: %s, key: %s, raw_request: %s.to_string(), host_response: %s }' % (
+def scenario_rs(attributed=True, elevated=True, dest=("168.63.129.16", 80), rules=None, key=False, raw_request="GET /machine?comp=goalstate HTTP/1.1\r\nhost: 127.0.0.1\r\n\r\n", host_response=None, other_rules=None):
+    return 'Scenario { attributed: %s, elevated: %s, dest: ("%s".parse().unwrap(), %d), rules: %s, key: %s, raw_request: %s.to_string(), host_response: %s, other_rules: %s }' % (
         "true" if attributed else "false", "true" if elevated else "false", dest[0], dest[1],
         "None" if rules is None else 'Some(("%s", "%s"))' % rules, "true" if key else "false", json.dumps(raw_request, ensure_ascii=False),
-        "None" if host_response is None else "Some(%s.to_vec())" % bytes_lit(host_response))
+        "None" if host_response is None else "Some(%s.to_vec())" % bytes_lit(host_response),
+        "None" if other_rules is None else 'Some(("%s", "%s"))' % other_rules)
 
 
 def bytes_lit(b):
@@ -214,6 +223,13 @@ def battery(pid):
                "o.status == 403 && o.host_requests.is_empty()", "PUT /vmAgentLog with the proxy listener as destination must get 403"),
               ("e2e_non_elevated_second_request_of_a_connection_is_403", scenario_rs(elevated=False, raw_request="GET /a HTTP/1.1\r\nhost: x\r\n\r\nGET /a HTTP/1.1\r\nhost: x\r\n\r\n"),
                "o.status == 403 && o.host_requests.is_empty()", "every request of a non-elevated caller to WireServer is refused, not only the first"),
+              # each endpoint is governed by its own rule slot: the destination's rules deny in enforce mode, the other endpoints' rules are disabled / allow
+              ("e2e_hostga_enforced_denial_with_other_endpoints_disabled_is_403", scenario_rs(dest=("168.63.129.16", 32526), rules=("enforce", "deny"), other_rules=("disabled", "allow")),
+               "o.status == 403 && o.host_requests.is_empty()", "HostGAPlugin denial must be enforced whatever the WireServer / IMDS rules say"),
+              ("e2e_imds_enforced_denial_with_other_endpoints_disabled_is_403", scenario_rs(dest=("169.254.169.254", 80), rules=("enforce", "deny"), other_rules=("disabled", "allow")),
+               "o.status == 403 && o.host_requests.is_empty()", "IMDS denial must be enforced whatever the other endpoints' rules say"),
+              ("e2e_wireserver_allowed_with_other_endpoints_denying_is_relayed", scenario_rs(rules=("enforce", "allow"), other_rules=("enforce", "deny")),
+               "o.status == 200 && o.host_requests.len() == 1", "a WireServer request allowed by the WireServer rules is relayed whatever the other endpoints' rules say"),
               ("e2e_authorized_is_relayed_once", scenario_rs(), "o.status == 200 && o.host_requests.len() == 1", "an attributed, authorized request is relayed exactly once")]
     if pid == "C05":
         hdrs = "x-ms-azure-host-claims: { \\\"isRoot\\\": \\\"true\\\"}\r\nX-MS-AZURE-HOST-CLAIMS: spoof2\r\nx-ms-azure-host-date: Thu, 01 Jan 1970 00:00:00 GMT\r\nX-Ms-Azure-Host-Date: Fri, 02 Jan 1970 00:00:00 GMT\r\nx-ms-azure-host-authorization: Azure-HMAC-SHA256 0 deadbeef\r\n"
@@ -229,7 +245,11 @@ def battery(pid):
                count("x-ms-azure-host-authorization") + ' && !o.host_requests[0].contains("deadbeef")', "a client authorization value that names the scheme and the current key id is replaced like any other"),
               ("e2e_client_authorization_never_reaches_host_when_signed", scenario_rs(elevated=False, dest=("169.254.169.254", 80), key=True, raw_request=req), count("x-ms-azure-host-authorization") + ' && !o.host_requests[0].contains("deadbeef")', "the client's authorization header is replaced by the proxy's")]
     if pid == "C11":
-        T += [("e2e_enforce_deny_403_recorded_once", scenario_rs(dest=("169.254.169.254", 80), elevated=False, rules=("enforce", "deny")), "o.status == 403 && o.host_requests.is_empty() && o.failed_summaries == 1", "enforce: 403, nothing relayed, one record"),
+        T += [("e2e_hostga_enforced_denial_with_other_endpoints_disabled_is_403_and_recorded", scenario_rs(dest=("168.63.129.16", 32526), rules=("enforce", "deny"), other_rules=("disabled", "allow")),
+               "o.status == 403 && o.host_requests.is_empty() && o.failed_summaries == 1", "the mode that decides for HostGAPlugin is HostGAPlugin's own"),
+              ("e2e_hostga_audit_denial_with_other_endpoints_enforcing_is_relayed_and_recorded", scenario_rs(dest=("168.63.129.16", 32526), rules=("audit", "deny"), other_rules=("enforce", "deny")),
+               "o.status == 200 && o.host_requests.len() == 1 && o.failed_summaries == 1", "audit on HostGAPlugin relays although the other endpoints enforce"),
+              ("e2e_enforce_deny_403_recorded_once", scenario_rs(dest=("169.254.169.254", 80), elevated=False, rules=("enforce", "deny")), "o.status == 403 && o.host_requests.is_empty() && o.failed_summaries == 1", "enforce: 403, nothing relayed, one record"),
               ("e2e_audit_deny_relayed_recorded_once", scenario_rs(dest=("169.254.169.254", 80), elevated=False, rules=("audit", "deny")), "o.status == 200 && o.host_requests.len() == 1 && o.failed_summaries == 1", "audit: relayed like an allowed request, one record"),
               ("e2e_allowed_not_recorded", scenario_rs(dest=("169.254.169.254", 80), elevated=False, rules=("enforce", "allow")), "o.status == 200 && o.host_requests.len() == 1 && o.failed_summaries == 0", "allowed: relayed, no record"),
               ("e2e_disabled_not_consulted", scenario_rs(dest=("169.254.169.254", 80), elevated=False, rules=("disabled", "deny")), "o.status == 200 && o.host_requests.len() == 1 && o.failed_summaries == 0", "disabled: relayed, no record"),
